@@ -45,7 +45,21 @@ func fault(format string, args ...interface{}) {
 		anchorGone(msg)
 	}
 	fmt.Printf("CHECKER-FAULT: %s\n", msg)
-	os.Exit(2)
+	exit(2)
+}
+
+// batchMode (zlv -props a,b,c — used by the self-test tools only): several
+// properties are decided in one process on one loaded program; what would end the
+// process ends the current property's run instead.
+var batchMode bool
+
+type exitSignal int
+
+func exit(code int) {
+	if batchMode {
+		panic(exitSignal(code))
+	}
+	os.Exit(code)
 }
 
 // currentProp is the property being decided (set by main before the check runs).
@@ -74,7 +88,7 @@ func anchorGone(msg string) {
 	_ = os.WriteFile(p, b, 0o644)
 	fmt.Printf("[anchor] %s (undecided)\n", msg)
 	fmt.Printf("VIOLATION property=%s replay=%s\n", currentProp, p)
-	os.Exit(1)
+	exit(1)
 }
 
 func repoDir() string {
@@ -769,7 +783,7 @@ func (r *Report) Finish() {
 	fmt.Printf("%s %s: %d obligations, %d discharged, %d known findings, %d violated, %d undecided (%.1fs)\n",
 		r.Prop, r.Tier, len(r.Obs), discharged, len(knownObs), len(viol), len(und), time.Since(r.start).Seconds()+c.loadS+c.ssaS)
 	if len(viol)+len(und) > 0 {
-		os.Exit(1)
+		exit(1)
 	}
 }
 
